@@ -3,6 +3,7 @@
 //   beffh <mode> run                           -> reads request lines, prints "<reply>\t<oracle>" per line
 mod bddmode;
 mod compilemode;
+mod semopsmode;
 mod sx;
 mod watchmode;
 use std::io::{BufRead, Write};
@@ -32,6 +33,10 @@ fn main() {
                         let steps = 4 + rng.below(args.get(6).map(|s| s.parse().unwrap()).unwrap_or(14));
                         bddmode::gen_script(&mut rng, max_atoms, steps)
                     }
+                    "semops" => {
+                        let steps = 3 + rng.below(args.get(5).map(|s| s.parse().unwrap()).unwrap_or(12));
+                        semopsmode::gen_script(&mut rng, steps)
+                    }
                     _ => panic!("unknown mode"),
                 };
                 writeln!(out, "{}", req).unwrap();
@@ -51,6 +56,7 @@ fn main() {
                 let req = parse(&line).expect("parse request");
                 let res = std::panic::catch_unwind(|| match mode {
                     "bdd" => bddmode::run(&req),
+                    "semops" => semopsmode::run(&req),
                     "compile" => compilemode::run(&req),
                     "det" => compilemode::run_det(&req),
                     "watch" => watchmode::run(&req),
